@@ -97,11 +97,11 @@ class ProcessPrimitiveTask(Task):
         kind_, val = I.run_function(I.repo.func(PRP), [me])
         evs = [e.args[0] for e in I.trace if e.name == "event"]
         if case == "empty":
-            I.ob(f"{P}/nothing-queued-for-an-empty-provider-queue", kind_ == "return" and val is False and not evs)
+            I.ob(f"{P}/nothing-queued-for-an-empty-provider-queue", kind_ == "return" and I.as_bool(val) is False and not evs)
         elif case == "other":
             I.ob(f"{P}/an-unknown-primitive-raises-ValueError-and-queues-nothing", kind_ == "raise" and val.cls_name == "ValueError" and not evs)
         else:
-            I.ob(f"{P}/queues-exactly-the-PS3.8-event-of-the-primitive", kind_ == "return" and val is True and evs == [want],
+            I.ob(f"{P}/queues-exactly-the-PS3.8-event-of-the-primitive", kind_ == "return" and I.as_bool(val) is True and evs == [want],
                  detail=f"{case}: {evs}")
             I.ob(f"{P}/every-queued-event-is-in-Table-9-10", all(e in S.EVENTS for e in evs))
 
